@@ -9,6 +9,10 @@ Tie (every run):
     lays it out (exact equality with the real output) and evaluates the hypothesis `Agree` of
     `layout_preserves_text` on it;
   * `queue`/`prepend`: real SourceParser::{peek,consume} / comment prepending vs the model;
+  * `attach`/`paren`: comment skeleton of real parses before/after
+    parse_expression_with_additional_preceding_comments / keep_parenthesis_comments vs Model/Attach.lean;
+  * `exprdoc`: the real Document of an expression (create_doc, hook H4c) vs Model/ExprDoc.lean, structural
+    equality, and its layout;
   * `imports`: the import section of the real Document (grouping by module, merged comments and members,
     sorting) vs Model/Imports.lean, structural equality.
 Implementation-side oracle (no model): a comment of every kind inserted into every token gap of a
@@ -1001,7 +1005,7 @@ def run(ctx):
         "samples": samples,
         "traces_validated_against_impl": n1 + n2 + n3 + n5 + extra.get("real_documents_laid_out_by_model", 0),
         "part_b_fragment_corollaries": partb,
-        "pending": ["text-level (layout-level) idempotence as a theorem needs the printer's document construction per construct in the model; comments on operator tokens in the fragment round trip; hook-level tie for keep_parenthesis_comments / leftmost attachment (today tied only through the module oracle)"],
+        "pending": ["layout-level idempotence as one theorem: needs a lexer model to read the laid-out text back into tokens (today: token-level round trip with comments + `expression_layout_text`: the layout of the arithmetic fragment is exactly its comment/token sequence); document construction of calls, dotted chains, if-else, match, statements, declarations; comments on operator tokens in the C08 round trip; C09-F4 (pinned test), rest of C09-F6 (needs a trailing-comment slot)"],
         "partial_theorems": {"format_idempotent_fragment_partial / roundtrip_with_comments_partial / format_idempotent_with_comments_partial": "C08's decidable side condition RT e; token level; comments on atoms (normal form the parser produces since fix a0babc7); atom table without duplicates",
                              "lineComment/multilineComment_content_equal": "content read modulo the repeated leaders `// ` and ` * ` (commentKey)"},
     })
@@ -1010,7 +1014,7 @@ def run(ctx):
                         "char::is_whitespace = Unicode White_Space as listed in Model/Doc.lean isWs",
                         "the lexer's comment tokens are taken as the definition of `the comments of a text` (oracle uses the real token producer on input and output)"]
     return ctx.finish(res, trusted=common.TRUSTED_COMMON + [
-        "hand-written models Model/Doc.lean (all of prettier.rs), Model/CommentQueue.lean (peek/consume, create_comment_reference, comment prepending), Model/Imports.lean (import grouping/merging/sorting and import_to_document); Model/Attach.lean (outer vs leftmost attachment of preceding comments, normal form); builder-C08's Model/Fmt.lean for the fragment corollaries",
+        "hand-written models Model/Doc.lean (all of prettier.rs), Model/CommentQueue.lean (peek/consume, create_comment_reference, comment prepending), Model/Imports.lean (import grouping/merging/sorting and import_to_document); Model/Attach.lean (outer vs leftmost attachment of preceding comments, keep_parenthesis_comments on the skeleton, normal form), Model/ExprDoc.lean (create_doc for identifiers/int literals/unary/binary with comments); builder-C08's Model/Fmt.lean for the fragment corollaries",
         "hooks samlang_printer::verif_hooks (layout/expand/flatten/module_doc) and samlang_parser::verif_hooks_queue",
         "not modelled (oracle only): the per-production comment attachment of source_parser.rs and the per-construct document construction of source_printer.rs; for the latter the hypothesis Agree(commentKey) of layout_preserves_text is evaluated on the real documents at run time",
         "vlib/c09_contexts.json: token contexts of the open findings C09-F2/C09-F3 (reference enumeration on the unchanged tree)"])
